@@ -6,7 +6,7 @@
    end in Ok, in an error, or are cut short) — is valid. *)
 From Coq Require Import List NArith Bool.
 From PG Require Import Model.VS Model.Term Model.Solver Model.Registry Proofs.VSLaws Proofs.SolverSem
-  Proofs.SolverStore Proofs.GenEqSolver Gen.IncompatCtors.
+  Proofs.SolverStore Proofs.GenEqSolver Gen.IncompatCtors Gen.IncompatMethods.
 From Coq Require Import ZArith.
 From PG Require Import Model.Instances Proofs.SolverExamples.
 
@@ -49,6 +49,16 @@ Section C06.
     /\ (forall p v m, gen_custom_version O p v m = custom_version O p v m)
     /\ (forall p vs d, gen_from_dependency O p vs d = from_dependency O p vs d).
   Proof. exact (incompat_ctors_match_source O). Qed.
+
+  (* translator tie, continued: no_versions, is_terminal, merge_dependents (merging of dependency incompatibilities)
+     and prior_cause (the rule of resolution), regenerated statement by statement from the CURRENT text of
+     src/internal/incompatibility.rs, are the functions of the model *)
+  Theorem incompat_methods_match_source :
+    (forall p (t : term VS), gen_no_versions (Vr := Vr) p t = no_versions p t)
+    /\ (forall i r v, gen_is_terminal O i r v = is_terminal O i r v)
+    /\ (forall a b, gen_merge_dependents O a b = merge_dependents O a b)
+    /\ (forall i j ti tj p, gen_prior_cause O i j ti tj p = prior_cause O i j ti tj p).
+  Proof. exact (GenEqSolver.incompat_methods_match_source O). Qed.
 End C06.
 
 (* non-vacuity: two recorded runs over Range<Z> (one NoSolution with a learned incompatibility, one Ok after a
@@ -75,3 +85,4 @@ Print Assumptions prior_cause_valid.
 Print Assumptions from_dependency_valid.
 Print Assumptions merge_dependents_justified.
 Print Assumptions incompat_constructors_match_source.
+Print Assumptions incompat_methods_match_source.
